@@ -47,14 +47,28 @@ Theorem C19_end_to_sound : forall i a b, valid_span i a -> valid_span i b -> cha
   valid_span i (end_to a b).
 Proof. exact end_to_sound. Qed.
 
-(** limits and defects of the current code *)
-Theorem C19_saturation_refuted :
+(** the size guard of `lex` (at most 65534 lines of at most 65534 chars, lex.rs:50-88) accepts
+    only inputs whose every line number and column is representable, so the specification
+    theorem and the assert theorem hold for every accepted input without the fits16 premise *)
+Theorem C19_guard_excludes_saturation : forall i, accepted i = true -> fits16 i.
+Proof. exact guard_excludes_saturation. Qed.
+Theorem C19_loc_spec_guarded : forall i acts l, fits32 i -> accepted i = true -> segs_pos i -> split_free acts = true ->
+  produced (run i acts) l ->
+  loc_of_prefix i (byte_pos l) = Some l /\ exists k, (k <= length i)%nat /\ byte_pos l = bytes_of (firstn k i).
+Proof. exact loc_spec_guarded. Qed.
+Theorem C19_lexer_asserts_hold_guarded : forall i acts, fits32 i -> accepted i = true -> split_free acts = true ->
+  disc (run i acts) = true -> asserts (run i acts) = true.
+Proof. exact lexer_asserts_hold_guarded. Qed.
+
+(** records about the UNGUARDED bookkeeping (both witnesses are now rejected by the guard:
+    Proofs/Lex.v pre_witnesses_rejected), and a defect of the current code (escape + split) *)
+Theorem C19_saturation_refuted_pre :
   exists i, fits32 i /\ col (loc_at i (length i)) <> col (spec_loc i (length i)).
-Proof. exact saturation_refuted. Qed.
-Theorem C19_line_saturation_assert_refuted :
+Proof. exact saturation_refuted_pre. Qed.
+Theorem C19_line_saturation_assert_refuted_pre :
   exists i k1 k2, fits32 i /\ Nat.leb k1 k2 = true /\ Nat.leb k2 (length i) = true /\
     make_span_ok (loc_at i k1) (loc_at i k2) = false.
-Proof. exact line_saturation_assert_refuted. Qed.
+Proof. exact line_saturation_assert_refuted_pre. Qed.
 Theorem C19_escape_split_refuted :
   exists i acts, fits32 i /\ disc (run i acts) = true /\ asserts (run i acts) = true /\
     exists t, In t (toks (run i acts)) /\ loc_of_prefix i (byte_pos (snd t)) <> Some (snd t).
@@ -65,18 +79,18 @@ Proof. exact escape_split_refuted. Qed.
 Example C19_nonvacuous :
   let i : input := [[(2, COther)]; [(1, CCr); (1, CNl)]; [(1, COther)]] in
   let acts := [AConsume; AEmit 1; AConsume; AEmit 1; AConsume; AEmit 1] in
-  fits32 i /\ fits16 i /\ segs_pos i /\ split_free acts = true /\ disc (run i acts) = true /\
+  fits32 i /\ accepted i = true /\ fits16 i /\ segs_pos i /\ split_free acts = true /\ disc (run i acts) = true /\
   rev (toks (run i acts)) = [(mkLoc 1 1 0 0, mkLoc 1 2 2 1); (mkLoc 1 2 2 1, mkLoc 2 1 4 2); (mkLoc 2 1 4 2, mkLoc 2 2 5 3)].
 Proof.
-  cbv zeta. split; [split; vm_compute; discriminate|]. split.
+  cbv zeta. split; [split; vm_compute; discriminate|]. split; [vm_compute; reflexivity|]. split.
   { intros k. do 4 (destruct k as [|k]; [vm_compute; split; discriminate|]). vm_compute; split; discriminate. }
   split; [repeat constructor|]. vm_compute. repeat split.
 Qed.
 
 Print Assumptions C19_loc_at_sat_spec.
 Print Assumptions C19_loc_spec.
-Print Assumptions C19_saturation_refuted.
-Print Assumptions C19_line_saturation_assert_refuted.
+Print Assumptions C19_saturation_refuted_pre.
+Print Assumptions C19_line_saturation_assert_refuted_pre.
 Print Assumptions C19_escape_split_refuted.
 Print Assumptions C19_lexer_asserts_hold.
 Print Assumptions C19_spans_ordered.
@@ -84,3 +98,6 @@ Print Assumptions C19_lexer_spans_valid.
 Print Assumptions C19_valid_span_props.
 Print Assumptions C19_merge_sound.
 Print Assumptions C19_end_to_sound.
+Print Assumptions C19_guard_excludes_saturation.
+Print Assumptions C19_loc_spec_guarded.
+Print Assumptions C19_lexer_asserts_hold_guarded.
